@@ -1510,13 +1510,13 @@ class Field(SupportComplexDataType):
         if self.is_named('MSH_1'):
             try:
                 return self.msh_1_1.children[0].value.value
-            except IndexError:
-                return self.msh_1_1.children[0].value
+            except (IndexError, AttributeError):  # no component, or a component without a value
+                return self.msh_1_1.children[0].value or ''
         elif self.is_named('MSH_2'):
             try:
                 return self.msh_2_1.children[0].value.value
-            except IndexError:
-                return self.msh_2_1.children[0].value
+            except (IndexError, AttributeError):
+                return self.msh_2_1.children[0].value or ''
         return super(Field, self).to_er7(encoding_chars, trailing_children)
 
     def is_z_element(self):
